@@ -98,7 +98,7 @@ func (p *Program) Globals() *GlobalModel {
 					if !ok || !cand[g] {
 						continue
 					}
-					if !readOnlyUse(ins, g, 0) {
+					if !readOnlyUse(ins, g, 0) && !(isWholeLoad(ins, g) && gm.sharingFieldsNil(g)) {
 						cand[g] = false
 					}
 				}
@@ -390,3 +390,43 @@ func mentionsAlloc(s *Sym, al *ssa.Alloc, depth int) bool {
 }
 
 func boolSym(b bool) *Sym { return &Sym{K: sConst, C: constant.MakeBool(b), T: types.Typ[types.Bool]} }
+
+// isWholeLoad: ins loads the whole variable (a copy of its value is taken).
+func isWholeLoad(ins ssa.Instruction, g *ssa.Global) bool {
+	u, ok := ins.(*ssa.UnOp)
+	return ok && u.X == ssa.Value(g) && u.Op.String() == "*"
+}
+
+// sharingFieldsNil: the variable holds a struct whose every field that could share storage with a copy (slices, maps,
+// pointers, interfaces) is nil in the value the initialiser gives it: a copy of it shares nothing with the original.
+func (gm *GlobalModel) sharingFieldsNil(g *ssa.Global) bool {
+	pt, ok := g.Type().Underlying().(*types.Pointer)
+	if !ok {
+		return false
+	}
+	st, ok := pt.Elem().Underlying().(*types.Struct)
+	if !ok {
+		return false
+	}
+	v := gm.st.gcells[g]
+	for i := 0; i < st.NumFields(); i++ {
+		f := st.Field(i)
+		if !sharesStorage(f.Type()) {
+			continue
+		}
+		if v == nil {
+			continue // never assigned: all zero
+		}
+		if v.K != sStruct {
+			return false
+		}
+		fv, has := v.F[f.Name()]
+		if !has && v.A == nil {
+			continue // zero
+		}
+		if !has || !(fv.IsNil() || (fv.K == sStruct && fv.A == nil && len(fv.F) == 0)) {
+			return false
+		}
+	}
+	return true
+}
